@@ -859,6 +859,7 @@ async def _execute(loop, program, observe=None):
                 side_ = scn.st[uid]['spec']['side']
                 world.ev(side_, 'abandon', uid=uid)
                 scn.st[uid]['abandoned'] = True
+                world.unbind(side_, scn.st[uid]['sid'], uid)
                 try:
                     req.cancel()
                 except Exception as e:
